@@ -23,7 +23,7 @@ def gen_features(rng, n, count):
     feats = []
     for _ in range(count):
         shape = rng.choice(["simple", "simple", "compound", "span", "extended", "whole_source",
-                            "whole", "source_part", "source_gappy", "source_span", "single"])
+                            "whole", "source_part", "source_gappy", "source_span", "single", "zero_length"])
         st = rng.choice([1, -1, 0])
         typ = rng.choice(["misc_feature", "CDS", "gene", "promoter"])
         parts = None
@@ -34,6 +34,10 @@ def gen_features(rng, n, count):
         elif shape == "single":
             a = rng.randrange(0, n)
             parts = [[a, a + 1, st]]
+        elif shape == "zero_length":
+            # a site between two letters (GenBank "9^10"): start == end, anywhere from 0 to n
+            a = rng.randrange(0, n + 1)
+            parts = [[a, a, st]]
         elif shape == "compound" and n >= 3:
             k = rng.choice([2, 3])
             pts = sorted(rng.sample(range(0, n + 1), min(2 * k, n + 1)))
